@@ -222,6 +222,21 @@ class FieldSym(AbstractValue):
         from .term import Term
         return Term("field_order", (op, repr(self), repr(other)), "bool")
 
+    def v_pow3(self, args, it):
+        """pow(a, n, m) with a symbolic residue a, concrete n >= 0 and m the field modulus: a**n as a canonical residue"""
+        if len(args) != 3 or args[0] is not self:
+            raise AnalysisError("three-argument pow with a symbolic exponent or modulus")
+        _a, n, m = args
+        if isinstance(n, bool) or not isinstance(n, int) or n < 0 or n > 64:
+            raise AnalysisError(f"three-argument pow with exponent {n!r}")
+        if self.cls.modulus is None or m != self.cls.modulus:
+            raise AnalysisError("three-argument pow with a modulus that is not the field modulus")
+        r = FieldSym(Rat(Poly.const(1, self.cls.modulus)), self.cls, True)
+        out = r.r
+        for _ in range(n):
+            out = out * self.r
+        return FieldSym(out, self.cls, True)
+
     def v_truth(self, it):
         if self.cls.modulus is not None and not self.reduced:
             it.emit("unreduced_compare", expr=f"truth of {self!r}")
